@@ -43,7 +43,7 @@ def replay_chunk(idx, hists):
     return part
 
 
-OBS_FLAGS = ('namesOK', 'hook_restored', 'reclimit_restored', 'objOK', 'keysOK', 'bounds_current', 'params_current')
+OBS_FLAGS = ('namesOK', 'hook_restored', 'reclimit_restored', 'objOK', 'keysOK', 'bounds_current', 'params_current', 'optsOK')
 
 
 def mask(batch, keep):
@@ -84,7 +84,7 @@ def reject_reason(tr, k):
     if k >= len(tr):
         return 'trace ended inside a solve'
     ev = tr[k]
-    flags = [f for f in ('namesOK', 'hook_restored', 'reclimit_restored', 'objOK', 'keysOK', 'bounds_current', 'params_current') if ev.get(f) is False]
+    flags = [f for f in OBS_FLAGS if ev.get(f) is False]
     if flags:
         return 'recorded observation false: ' + ','.join(flags)
     if ev['ev'] == 'Return':
@@ -103,15 +103,17 @@ def run(report, tier):
     triples = list(g.triples())
     report.extra['invalidation_triples_in_model'] = len(triples)
     k = 1200 if tier == 'quick' else 12000
-    sample = rng.sample(triples, min(k, len(triples)))
+    sample, report.extra['strata (fill, edit, observation) all covered'] = histgraph.stratified(triples, k, rng)
     batch = []
     for part in histrun.parallel(replay_chunk, sample):
         batch += part.pop('batch')
         report.merge(part)
     validate_traces(report, batch, 'C13 replay', keep=('bounds_current', ('namesOK', 'ReadVars')))
+    from .. import suitetrace
+    suitetrace.validate(report, keep=('bounds_current', ('namesOK', 'ReadVars')))
     return report.finish(
         rule='Solve.tla model-checked to fixpoint (all invariants). From the labelled state graph of the success-only instance every '
-             '(cache-filled state, edit, observation) triple is a history; a seeded sample is replayed on 2 concretisations each; every '
+             '(cache-filled state, edit, observation) triple is a history; the shortest history of every (cache-filling operation, edit, observation) stratum plus a seeded sample is replayed on 2 concretisations each; every '
              'solve / variables read is compared with a fresh Problem built from the same objects; all executions are recorded and '
              'validated against TraceSolve.tla. distinct_nontrivial = distinct histories.',
         exhaustive=False)
